@@ -275,16 +275,16 @@ int Session::on_tx_hook(int hook, htp_tx_t *tx) {
         m.req_complete++;
         if (o_.monitors) {
             if (tx->request_entity_len != m.reqbody && !sticky_[0] && connp_->in_status != HTP_STREAM_ERROR) viol(std::string("C06:request_entity_len_mismatch@") + htp_connp_in_state_as_string(connp_));
-            if (htp_tx_req_has_body(tx) && !m.req_eob) viol(std::string("C06:request_no_end_of_body_marker@") + htp_connp_in_state_as_string(connp_));
-            if (tx->request_content_encoding <= HTP_COMPRESSION_NONE && tx->request_message_len < tx->request_entity_len) viol(std::string("C06:request_message_len_below_entity_len@") + htp_connp_in_state_as_string(connp_));
+            if (htp_tx_req_has_body(tx) && !m.req_eob) viol(std::string("C06:request_no_end_of_body_marker@") + htp_connp_in_state_as_string(connp_) + tsuffix(m, 1u << 8));
+            if (tx->request_content_encoding <= HTP_COMPRESSION_NONE && tx->request_message_len < tx->request_entity_len && !sticky_[0] && connp_->in_status != HTP_STREAM_ERROR) viol(std::string("C06:request_message_len_below_entity_len@") + htp_connp_in_state_as_string(connp_));
         }
     } else if (hook == H_RES_COMPLETE) {
         if (m.res_complete) viol(std::string("C05:response_complete_twice@") + htp_connp_out_state_as_string(connp_));
         m.res_complete++;
         if (o_.monitors) {
             if (tx->response_entity_len != m.resbody && !sticky_[1] && connp_->out_status != HTP_STREAM_ERROR) viol(std::string("C06:response_entity_len_mismatch@") + htp_connp_out_state_as_string(connp_));
-            if ((tx->response_transfer_coding == HTP_CODING_IDENTITY || tx->response_transfer_coding == HTP_CODING_CHUNKED) && !m.res_eob) viol(std::string("C06:response_no_end_of_body_marker@") + htp_connp_out_state_as_string(connp_));
-            if (tx->response_content_encoding_processing <= HTP_COMPRESSION_NONE && tx->response_message_len < tx->response_entity_len) viol(std::string("C06:response_message_len_below_entity_len@") + htp_connp_out_state_as_string(connp_));
+            if ((tx->response_transfer_coding == HTP_CODING_IDENTITY || tx->response_transfer_coding == HTP_CODING_CHUNKED) && !m.res_eob) viol(std::string("C06:response_no_end_of_body_marker@") + htp_connp_out_state_as_string(connp_) + tsuffix(m, 1u << 8));
+            if (tx->response_content_encoding_processing <= HTP_COMPRESSION_NONE && tx->response_message_len < tx->response_entity_len && !sticky_[1] && connp_->out_status != HTP_STREAM_ERROR) viol(std::string("C06:response_message_len_below_entity_len@") + htp_connp_out_state_as_string(connp_));
         }
     } else if (hook == H_TX_COMPLETE) {
         if (m.tx_complete) viol(std::string("C05:transaction_complete_twice@") + htp_connp_in_state_as_string(connp_) + "/" + htp_connp_out_state_as_string(connp_));
@@ -346,13 +346,13 @@ int Session::on_log(htp_log_t *l) {
 
 void Session::on_trace(int site, const void *a, long) {
     r_.trace_hits[site]++;
-    if (site >= 5 && site <= 7 && a) { int serial = serial_of((htp_tx_t *)a); mon_[serial].tflags |= 1u << site; }
+    if (site >= 5 && site <= 8 && a) { int serial = serial_of((htp_tx_t *)a); mon_[serial].tflags |= 1u << site; }
 }
 // "+T6" style suffix: the violation happened in a transaction that went through a deliberate tolerance branch
 // (T5 unexpected request body, T6 response line treated as body, T7 unexpected response body); known findings
 // are keyed on the suffixed signature only, so the same rule failing elsewhere is still reported.
 std::string Session::tsuffix(const TxM &m, unsigned mask) const {
-    std::string s; for (int t = 5; t <= 7; t++) if ((m.tflags & mask) & (1u << t)) s += "+T" + std::to_string(t); return s;
+    std::string s; for (int t = 5; t <= 8; t++) if ((m.tflags & mask) & (1u << t)) s += "+T" + std::to_string(t); return s;
 }
 
 Call &Session::begin_call(char kind, size_t len) {
